@@ -126,6 +126,7 @@ func checkC10(c *Ctx) {
 	c.Assume("events are attributed to a step by a following request/response on the same connection (hc writes notifications synchronously from the goroutine that changed the value)")
 	c10Wire(c)
 	c10DuringResponse(c)
+	duplexStress(c, "C10") // events and responses written to one connection at the same time must stay decryptable: a garbled event is a lost event
 	n := c.Pick(32, 1500)
 	type res struct{ line, impl string }
 	results := make([]res, n)
